@@ -39,6 +39,7 @@ func runC02(c *Ctx) {
 	c02SplitIndex(c)
 	c06Lines(c, "C02-R10")
 	c02WholeLines(c)
+	c02DerivedFromContent(c)
 	c02EmptyReducers(c)
 	c02OptionalPointers(c)
 	c02MustCompile(c)
@@ -1044,4 +1045,104 @@ func mentionsLenOf(info *types.Info, e ast.Expr, o types.Object) bool {
 		return true
 	})
 	return found
+}
+
+// c02DerivedFromContent: the console reporter reads each file's content once
+// and resets it when it moves on to the next path. Anything derived from that
+// content (split lines, …) must not outlive it: a variable assigned from an
+// expression over `content` is either declared below the reset (fresh every
+// time) or reset in the same block as the content itself. A memoised copy that
+// survives the reset prints (or indexes) the previous file's lines.
+func c02DerivedFromContent(c *Ctx) {
+	p := c.P
+	fi := c.MustFunc("C02-R10", "internal/reporter.ConsoleReporter.Submit")
+	if fi == nil {
+		return
+	}
+	info := fi.Pkg.TypesInfo
+	pm := parentMap(fi.Decl.Body)
+	// the content variable: a string local assigned from readFile(...)
+	var content types.Object
+	ast.Inspect(fi.Decl.Body, func(n ast.Node) bool {
+		as, ok := n.(*ast.AssignStmt)
+		if !ok || len(as.Rhs) != 1 {
+			return true
+		}
+		if call, ok := as.Rhs[0].(*ast.CallExpr); ok && isCallTo(info, call, "internal/reporter.readFile") {
+			content = objOf(info, as.Lhs[0])
+		}
+		return true
+	})
+	if content == nil {
+		c.Undecided("C02-R10", "ConsoleReporter.Submit:file content variable", fi.Decl.Pos(), "no `content, err = readFile(...)`")
+		return
+	}
+	// resets of content: content = "" (constant)
+	var resets []*ast.AssignStmt
+	ast.Inspect(fi.Decl.Body, func(n ast.Node) bool {
+		as, ok := n.(*ast.AssignStmt)
+		if !ok || len(as.Lhs) != 1 || len(as.Rhs) != 1 || objOf(info, as.Lhs[0]) != content {
+			return true
+		}
+		if v, isC := constString(info, as.Rhs[0]); isC && v == "" {
+			resets = append(resets, as)
+		}
+		return true
+	})
+	c.Check(len(resets) >= 1, "C02-R10", "ConsoleReporter.Submit:content is reset per path", fi.Decl.Pos(), itoa(len(resets))+" reset(s)", "the file content is never reset between paths")
+	// derived variables
+	derived := map[types.Object]token.Pos{}
+	ast.Inspect(fi.Decl.Body, func(n ast.Node) bool {
+		as, ok := n.(*ast.AssignStmt)
+		if !ok {
+			return true
+		}
+		for i, l := range as.Lhs {
+			o := objOf(info, l)
+			if o == nil || o == content || i >= len(as.Rhs) && len(as.Rhs) != 1 {
+				continue
+			}
+			r := as.Rhs[0]
+			if i < len(as.Rhs) {
+				r = as.Rhs[i]
+			}
+			if call, ok := r.(*ast.CallExpr); ok && isCallTo(info, call, "internal/diags.InjectDiagnostics") {
+				continue // rendered text, consumed at once
+			}
+			if mentionsObj(info, r, content) {
+				if v, isVar := o.(*types.Var); isVar && !v.IsField() {
+					derived[o] = o.Pos()
+				}
+			}
+		}
+		return true
+	})
+	bad := ""
+	for o, declPos := range derived {
+		for _, r := range resets {
+			blk, _ := pm[r].(*ast.BlockStmt)
+			if blk == nil {
+				continue
+			}
+			if declPos > blk.Pos() && declPos > r.Pos() {
+				continue // declared below the reset: fresh for every path
+			}
+			// declared outside: must be reset next to content
+			resetHere := false
+			for _, st := range blk.List {
+				if as, ok := st.(*ast.AssignStmt); ok {
+					for _, l := range as.Lhs {
+						if objOf(info, l) == o {
+							resetHere = true
+						}
+					}
+				}
+			}
+			if !resetHere {
+				bad = o.Name() + " (declared at " + p.Pos(declPos) + ")"
+			}
+		}
+	}
+	c.Check(bad == "", "C02-R10", "ConsoleReporter.Submit:nothing derived from a file's content outlives it", fi.Decl.Pos(), itoa(len(derived))+" derived variable(s)",
+		"`"+bad+"` is computed from the file content but declared outside the per-path reset and not reset with it: for the next file the stale value is used — lines of the previous file are printed, or indexed with this file's line numbers (index out of range)")
 }
